@@ -72,6 +72,9 @@ def build_input(trajs, how, dtype="int64"):
 
 
 DTYPES = ["int64", "int32", "int16", "int8", "uint8", "uint16"]
+# the function, called with keywords or positionally as documented (assigns, lag_time, max_n_states, sliding_window),
+# and the estimator that counts through it (MSM(...).fit(a).tcounts_, nothing trimmed)
+ENTRY_POINTS = ["function", "function", "positional", "MSM.fit"]
 
 
 @st.composite
@@ -114,7 +117,7 @@ def count_case(draw, max_traj=6, max_len=25):
     return {"trajs": trajs, "lag": lag, "sliding": draw(st.booleans()),
             "max_n_states": max_n_states,
             "how": draw(st.sampled_from(hows)),
-            "dtype": dtype, "wide": wide,
+            "dtype": dtype, "wide": wide, "entry": draw(st.sampled_from(ENTRY_POINTS)),
             "perm_seed": draw(st.integers(0, 10 ** 6)),
             "split": draw(st.integers(0, ntraj))}
 
@@ -130,8 +133,18 @@ def call(trajs, case, how=None):
             x = build_input([t for t in trajs if len(t)], "ragged", dtype)   # empty rows simply do not exist
         else:
             x = build_input(trajs, "padded", dtype)
-    C = assigns_to_counts(x, case["lag"], max_n_states=case["max_n_states"],
-                          sliding_window=case["sliding"])
+    entry = case.get("entry", "function")
+    if entry == "positional":
+        C = assigns_to_counts(x, case["lag"], case["max_n_states"], case["sliding"])
+    elif entry == "MSM.fit":
+        from enspara.msm import MSM, builders
+        m = MSM(lag_time=case["lag"], method=lambda C, **kw: (C, C, None), trim=False, sliding_window=case["sliding"],
+                max_n_states=case["max_n_states"])
+        m.fit(x)
+        C = m.tcounts_
+    else:
+        C = assigns_to_counts(x, case["lag"], max_n_states=case["max_n_states"],
+                              sliding_window=case["sliding"])
     require(scipy.sparse.issparse(C) or isinstance(C, np.ndarray), "unexpected return type %s" % type(C))
     return np.asarray(C.toarray() if scipy.sparse.issparse(C) else C)
 
@@ -145,7 +158,7 @@ def info(case):
     cl = ["how=" + case["how"], "sliding=%s" % case["sliding"],
           "mns=%s" % ("None" if case["max_n_states"] is None else "given"),
           "has_empty_traj=%s" % any(len(t) == 0 for t in trajs), "dtype=" + case["dtype"],
-          "wide_states=%s" % case.get("wide", False),
+          "wide_states=%s" % case.get("wide", False), "entry=" + case.get("entry", "function"),
           "total_zero=%s" % (R.sum() == 0)]
     return Info(nt, cl)
 
@@ -248,11 +261,103 @@ def run_many(case):
                 key=[case["ntraj"], case["seed"], case["lag"], case["sliding"], case["how"]])
 
 
+# --------------------------------------------------------------------------
+# few states, long sticky trajectories in narrow dtypes: a single ENTRY of the matrix exceeds what the assignments'
+# own dtype can hold (counts are numbers of pairs, not state ids)
+
+@st.composite
+def sticky_case(draw):
+    dtype = draw(st.sampled_from(["int8", "uint8", "int16", "uint16", "int32"]))
+    top = int(np.iinfo(dtype).max)
+    L = draw(st.sampled_from([200, 300, 600] if top < 1000 else [33000, 40000, 70000] if top < 10 ** 5 else [50000]))
+    return {"dtype": dtype, "L": L, "ntraj": draw(st.integers(1, 3)), "n_states": draw(st.integers(1, 3)),
+            "stay": draw(st.sampled_from([0.5, 0.9, 0.99, 1.0])), "seed": draw(st.integers(0, 2 ** 31 - 1)),
+            "lag": draw(st.integers(1, 3)), "sliding": draw(st.booleans()),
+            "how": draw(st.sampled_from(["ragged", "padded"])), "entry": draw(st.sampled_from(ENTRY_POINTS))}
+
+
+def run_sticky(case):
+    rng = np.random.RandomState(case["seed"])        # seed drawn by Hypothesis
+    trajs = []
+    for _ in range(case["ntraj"]):
+        L = int(case["L"] * (0.5 + 0.5 * rng.rand()))
+        jump = rng.rand(L) >= case["stay"]
+        prop = rng.randint(0, case["n_states"], size=L)
+        t = np.zeros(L, dtype=np.int64)
+        for i in range(1, L):
+            t[i] = prop[i] if jump[i] else t[i - 1]
+        trajs.append(t.tolist())
+    n = case["n_states"]
+    c = {"lag": case["lag"], "sliding": case["sliding"], "max_n_states": n, "how": case["how"], "dtype": case["dtype"],
+         "entry": case["entry"]}
+    R = ref_counts(trajs, case["lag"], case["sliding"], n)
+    C = call(trajs, c)
+    require(np.array_equal(C, R), "count matrix differs from literal pair count on long sticky trajectories",
+            got=C.tolist(), want=R.tolist(), dtype=case["dtype"])
+    over = int(R.max()) > int(np.iinfo(case["dtype"]).max)
+    return Info(over, ["sticky_dtype=" + case["dtype"], "entry_exceeds_dtype=%s" % over, "entry=" + case["entry"]],
+                key=[case["seed"], case["dtype"], case["L"], case["lag"], case["sliding"], case["how"], case["entry"]])
+
+
+# --------------------------------------------------------------------------
+# one assignments object counted repeatedly: other lag time, then refilled in place with other assignments
+
+@st.composite
+def recount_case(draw):
+    c = draw(count_case(max_traj=5, max_len=20))
+    c["lag2"] = draw(st.integers(1, 6))
+    c["refill_seed"] = draw(st.integers(0, 2 ** 31 - 1))
+    c["how"] = draw(st.sampled_from(["padded", "padded_extra", "padded_F", "ragged"]))
+    if c["dtype"].startswith("u"):
+        c["how"] = "ragged"
+    return c
+
+
+def run_recount(case):
+    trajs, lag = case["trajs"], case["lag"]
+    if any(len(t) == 0 for t in trajs):
+        trajs = [t for t in trajs if len(t)]
+    obs = max(max(t) for t in trajs) + 1
+    n = case["max_n_states"] or obs
+    x = build_input(trajs, case["how"], case["dtype"])
+
+    def count(l):
+        C = assigns_to_counts(x, l, max_n_states=n, sliding_window=case["sliding"])
+        return np.asarray(C.toarray() if scipy.sparse.issparse(C) else C)
+    C1 = count(lag)
+    require(np.array_equal(C1, ref_counts(trajs, lag, case["sliding"], n)), "first count differs from literal pair count")
+    C2 = count(case["lag2"])
+    require(np.array_equal(C2, ref_counts(trajs, case["lag2"], case["sliding"], n)),
+            "second count of the same object with another lag time differs from literal pair count",
+            lag=lag, lag2=case["lag2"], got=C2.tolist())
+    # refill in place: same shape, a permutation of the state ids (and reversed time order) -> other pairs
+    rng = np.random.RandomState(case["refill_seed"])
+    ids = sorted(set(v for t in trajs for v in t))
+    perm = dict(zip(ids, rng.permutation(ids).tolist()))
+    new = [[perm[v] for v in t[::-1]] for t in trajs]
+    if case["how"] == "ragged":
+        for i, t in enumerate(new):
+            x[i] = np.array(t, dtype=case["dtype"])
+    else:
+        for i, t in enumerate(new):
+            x[i, :len(t)] = t
+    C3 = count(lag)
+    R3 = ref_counts(new, lag, case["sliding"], n)
+    require(np.array_equal(C3, R3), "count of an assignments object that was refilled in place differs from the literal "
+            "pair count of its new contents", got=C3.tolist(), want=R3.tolist(), old=C1.tolist())
+    i = info(case)
+    return Info(i.nontrivial and not np.array_equal(R3, C1), list(i.classes) + ["recount_how=" + case["how"]])
+
+
 CLAUSES = [
     Clause("exact", count_case(), run_exact, quick=1200, thorough=30000, exhaustive=exhaustive_small),
     Clause("additive", count_case(), run_additive, quick=600, thorough=15000),
     Clause("presentations", count_case(), run_presentations, quick=600, thorough=15000),
     Clause("exact_large", count_case(max_traj=30, max_len=200), run_exact, quick=0, thorough=4000),
     Clause("many_trajectories", many_case(), run_many, quick=16, thorough=160),
+    Clause("sticky_narrow_dtypes", sticky_case(), run_sticky, quick=24, thorough=400,
+           doc="1..3 states, long sticky trajectories in int8..int32: single matrix entries exceed the assignments' dtype"),
+    Clause("recount_same_object", recount_case(), run_recount, quick=600, thorough=12000,
+           doc="one assignments object counted with two lag times, refilled in place, counted again"),
 ]
 MATCHERS = {}
